@@ -74,9 +74,34 @@ func genScenario(r *hx.Rand, i int) interface{} {
 		in.Servers = []SrvIn{{Kind: "tcp", Work: []*int{nil}, Removed: true}, other}
 		return in
 	}
+	if j := i - 2*len(kinds) - 5; j >= 0 && j < 2 { // websocket sessions: hijacked connections on the http side
+		if j == 0 {
+			in.Servers = []SrvIn{{Kind: "http", Work: []*int{}, WS: []*int{genEnd(r, wait, 0), nil}}}
+		} else {
+			in.Servers = []SrvIn{{Kind: "inetaf", Work: []*int{genEnd(r, wait, 0)}, HWork: []*int{}, WS: []*int{genEnd(r, wait, 0), genEnd(r, wait, 1)}}}
+		}
+		return in
+	}
+	if j := i - 2*len(kinds) - 7; j >= 0 && j < 2 { // a listener whose start is still in progress when shutdown begins
+		if j == 0 {
+			in.Servers = []SrvIn{{Kind: "http", Work: []*int{genEnd(r, wait, 0)}}, {Kind: r.Pick([]string{"http", "inetaf"}), Work: []*int{}, Pending: r.Range(50, 300)}}
+		} else {
+			in.Servers = []SrvIn{{Kind: "tcp", Work: []*int{}, Pending: r.Range(50, 200)}, {Kind: "grpc", Work: []*int{}, Pending: r.Range(wait, wait+300)}}
+		}
+		return in
+	}
 	n := r.Range(1, 4)
 	for j := 0; j < n; j++ {
 		s := SrvIn{Kind: r.Pick(kinds)}
+		if r.Chance(1, 8) {
+			s.Work = []*int{}
+			s.Pending = r.Range(50, 1000)
+			in.Servers = append(in.Servers, s)
+			continue
+		}
+		if (s.Kind == "http" || s.Kind == "inetaf") && r.Chance(1, 3) {
+			s.WS = genWork(r, wait, 2)
+		}
 		s.Work = genWork(r, wait, 3)
 		if s.Kind == "inetaf" {
 			s.HWork = genWork(r, wait, 2)
